@@ -567,7 +567,15 @@ def _obs_tsfit(c):
     return o
 
 
-_OBSERVERS = {"clf": _obs_clf, "indiv": _obs_indiv, "colens": _obs_colens, "base": _obs_base, "feat": _obs_feat,
+def _obs_bossfit(c):
+    Xtr, ytr, _, _ = _panel(c)
+    clf = _make(c)
+    _seed_global(c, 1)
+    _, err = _call(lambda: clf.fit(Xtr, ytr))
+    return {"fit_err": err, "n_estimators": int(getattr(clf, "n_estimators", 0)), "ytr": list(np.asarray(ytr))}
+
+
+_OBSERVERS = {"bossfit": _obs_bossfit, "clf": _obs_clf, "indiv": _obs_indiv, "colens": _obs_colens, "base": _obs_base, "feat": _obs_feat,
               "tsffeat": _obs_tsffeat, "tsfit": _obs_tsfit}
 
 
@@ -614,11 +622,15 @@ def run_real(c):
                                           "~" if not o["ivs"] else "|".join(_ivs(iv) for iv in o["ivs"]))
     if o.get("fit_err"):
         return ("cols=" if kind == "colens" else "fit=") + o["fit_err"]
+    if kind == "bossfit":
+        return "fit=ok"
     if kind == "clf" and c["algo"] == "reg":
         return "pred=" + (o["pred_err"] or _row(o["pred"]))
     if kind == "indiv":
         return "classes=%s proba=%s" % (_labs(o["classes"]), o["proba_err"] or _mat(o["proba"]))
     head = "classes=%s " % _labs(o["classes"])
+    if kind == "clf" and c["algo"] in ("cboss", "tde"):
+        head = "w=%s " % show_rats(o["weights"]) + head
     if kind == "colens":
         idx = [[o["names"].index(nm) for nm in cols] if cols is not None else None for cols in o["pred_cols"]]
         if o["proba_err"] is None and any(i is None for i in idx):
@@ -675,6 +687,8 @@ def to_line(c):
         else:
             mem = _mats([m for m in o["members"] if m is not None])
         return "C17 colens %s %s %s %s %s" % (_labs(_yl(c["labels"])), names, ent, mem, _labs(_yl(c["ytest"])))
+    if kind == "bossfit" or (o.get("fit_err") and kind == "clf" and c["algo"] in ("boss", "cboss", "tde")):
+        return "C17 bossfit %d %d" % (c["L"], c.get("params", {}).get("min_window", 10))
     if o.get("fit_err"):
         return None
     if kind == "indiv":
@@ -690,12 +704,14 @@ def to_line(c):
         return "C17 reg %s" % _mat(o["members"])
     if any(m is None for m in o["members"]) and algo != "muse":
         return None
-    if algo in ("tsf", "rise", "stsf"):
+    if algo == "stsf":
+        return "C17 stsf %s %s %s %s" % (_labs(o["ytr"]), _labrows(o["member_classes"]), _mats(o["members"]), _labs(o["yte"]))
+    if algo in ("tsf", "rise"):
         return "C17 forest %s %s %s" % (_labs(o["ytr"]), _mats(o["members"]), _labs(o["yte"]))
     if algo == "boss":
         return "C17 boss %s %d %s %s %s" % (_labs(o["ytr"]), o["n_test"], _labrows(o["members"]), show_ints(_draws(o)), _labs(o["yte"]))
     if algo in ("cboss", "tde"):
-        return "C17 cboss %s %d %s %s %s %s" % (_labs(o["ytr"]), o["n_test"], _labrows(o["members"]), show_rats(o["weights"]),
+        return "C17 cboss %s %d %s %s %s %s" % (_labs(o["ytr"]), o["n_test"], _labrows(o["members"]), show_rats(o["accuracies"]),
                                                show_ints(_draws(o)), _labs(o["yte"]))
     if algo == "muse":
         if o["pred"] is None:
@@ -924,6 +940,10 @@ def oracle(c, out):
     site = c.get("algo", kind)
     if o.get("fit_err"):
         return fails            # the panel / configuration is not runnable for this classifier: nothing to say
+    if kind == "bossfit":
+        if o["n_estimators"] == 0:
+            fails.append((site + ":fit-retains-no-member", "fit succeeded on series of length %d with an empty ensemble" % c["L"]))
+        return fails
     if kind == "tsffeat":
         _check_tree_inputs(o, "tsf", fails)
         return fails
@@ -952,7 +972,9 @@ def oracle(c, out):
                           "predict_proba %s; member class counts %r for %d classes" % (
                               ("raised " + o["proba_err"]) if o.get("proba_err") else ("row 0 = %r" % (P[0].tolist(),)),
                               [len(mc) for mc in o["member_classes"]], len(o["classes"]))))
-        return fails
+            return fails
+    if kind == "clf" and c["algo"] in ("boss", "cboss", "tde") and o.get("n_estimators") == 0:
+        fails.append((site + ":fit-retains-no-member", "fit succeeded on series of length %d with an empty ensemble" % c["L"]))
     if o.get("proba_err"):
         if kind == "clf" and c["algo"] == "stsf" and any(len(mc) < len(o["classes"]) for mc in o["member_classes"]):
             fails.append(("stsf:predict_proba-fails:member-bag-misses-a-class",
@@ -970,9 +992,6 @@ def oracle(c, out):
     if kind == "clf" and c["algo"] == "muse" and _lab_list(o["member_classes"][0]) != _lab_list(sorted(set(o["ytr"]))):
         fails.append(("muse:columns-not-ordered-like-classes", "pipeline classes_ %r" % (o["member_classes"][0],)))
     if kind == "clf" and c["algo"] in ("tsf", "rise", "stsf"):
-        if c["algo"] == "stsf" and any(len(mc) < len(o["classes"]) for mc in o["member_classes"]):
-            fails.append(("stsf:predict_proba-fails:member-bag-misses-a-class", "member class counts %r" % [len(mc) for mc in o["member_classes"]]))
-            return fails
         exp = _expected_avg(o)
         if np.abs(exp - o["proba"]).max() > 1e-9:
             fails.append((site + ":proba-not-mean-of-trees", "row 0: %r, mean of trees (columns by their classes_) %r" % (o["proba"][0].tolist(), exp[0].tolist())))
@@ -1105,13 +1124,13 @@ def _clf_case(rng, algo, tier):
         c["L"] = rng.choice([16, 17, 20, 24])
         c["params"] = {"n_estimators": rng.choice([1, 2, 3, 5])}
     elif algo == "boss":
-        c["L"] = rng.choice([10, 11, 12, 14])
+        c["L"] = rng.choice([8, 9, 10, 10, 11, 12, 14])
         c["params"] = {"max_ensemble_size": rng.choice([1, 2, 500])} if rng.random() < 0.5 else {}
     elif algo == "cboss":
-        c["L"] = rng.choice([10, 11, 12, 14])
+        c["L"] = rng.choice([8, 9, 10, 10, 11, 12, 14])
         c["params"] = {"n_parameter_samples": rng.choice([2, 4, 6]), "max_ensemble_size": rng.choice([1, 2, 3])}
     elif algo == "tde":
-        c["L"] = rng.choice([10, 12])
+        c["L"] = rng.choice([9, 10, 10, 12])
         c["ncol"] = rng.choice([1, 1, 2])
         c["params"] = {"n_parameter_samples": rng.choice([2, 4]), "max_ensemble_size": rng.choice([1, 2, 3]),
                        "randomly_selected_params": 3}
@@ -1271,8 +1290,16 @@ def gen_cases(tier, rng):
         L = rng.randrange(1, 40)
         cases.append({"kind": "tsfit", "L": L, "m": rng.choice([None, None, 0, 1, 2, 3, 4, 7, L, L + 1]), "nest": rng.randrange(1, 5),
                       "n": rng.randrange(2, 6), "rs": rng.randrange(1 << 20), "xseed": rng.randrange(1 << 20), "reg": rng.random() < 0.25})
-    # STSF on tiny balanced panels: some bootstrap bag misses a class (known finding); the other
-    # degenerate configurations live in corpus/C17
+    # BOSS-family fit on series around the smallest window (fit must reject, or retain a member)
+    for algo in ("boss", "cboss", "tde"):
+        for L in ((8, 9, 10, 11) if q else range(5, 14)):
+            for mw in ((10,) if q else (6, 10, 12)):
+                p = {"boss": {}, "cboss": {"n_parameter_samples": 1, "max_ensemble_size": 1},
+                     "tde": {"n_parameter_samples": 1, "max_ensemble_size": 1, "randomly_selected_params": 1}}[algo]
+                cases.append({"kind": "bossfit", "algo": algo, "labels": [0, 1, 0, 1, 1], "ytest": [0], "xseed": L, "rs": 0, "L": L,
+                              "params": dict(p, min_window=mw)})
+    # STSF on tiny balanced panels: some bootstrap bag misses a class (fixed finding: the tree's columns are aligned);
+    # the other formerly degenerate configurations live in corpus/C17
     for s_ in range(3 if q else 12):
         cases.append({"kind": "clf", "algo": "stsf", "labels": [0, 1, 0, 1], "ytest": [0, 1], "xseed": 7 + s_, "rs": s_, "L": 16,
                       "params": {"n_estimators": 10}})
